@@ -242,6 +242,184 @@ fn col_strategy() -> impl Strategy<Value = ColDef> {
     })
 }
 
+fn coerce_core(c: &mut ColDef) {
+    if let Ty::Str(w) = c.ty {
+        c.ty = Ty::Str(w.min(255));
+    }
+    c.enums.retain(|e| !e.is_empty() && !e.contains(';'));
+    while c.enums.join(";").chars().count() > 255 {
+        c.enums.pop();
+    }
+    if let Some((lo, hi)) = c.range {
+        c.range = Some((lo.max(-i32::MAX), hi.max(-i32::MAX)));
+    }
+    if let Some((t, n)) = &c.fk {
+        if !(1..=32).contains(n) || t != "Other" {
+            c.fk = Some(("Other".to_string(), 2));
+        }
+    }
+}
+
+// ------------------------------------------------------------------------- //
+// Histories: tables created, dropped and created again in one session.  The
+// strings of a schema (table, column, category and set names) live in the
+// shared string pool, a drop releases them and the next creation reuses their
+// slots, so "reports the schema it was created with" also has to hold for a
+// table created after others have come and gone.
+
+#[derive(Clone, Debug, Serialize, Deserialize, Hash, PartialEq, Eq)]
+pub enum HStep {
+    Create { t: u8, cols: Vec<ColDef> },
+    Drop { t: u8 },
+    Reopen { close: u8 },
+}
+
+#[derive(Clone, Debug, Serialize, Deserialize, Hash, PartialEq, Eq)]
+pub struct HistCase {
+    pub steps: Vec<HStep>,
+}
+
+/// Table names, and the pool column names are drawn from: they overlap with
+/// each other and with the strings creation writes into `_Validation`
+/// ("Y", "N", category names) on purpose.
+const HT: [&str; 4] = ["Tab", "Other", "x", "Identifier"];
+const HC: [&str; 10] = ["k", "a", "b", "x", "Tab", "Name", "Y", "N", "Text", "Other"];
+
+fn hist_compare(pkg: &Package<SharedBuf>, model: &std::collections::BTreeMap<String, Vec<ColDef>>, when: &str, trace: &str) -> Check {
+    let mut listed: Vec<String> = pkg.tables().map(|t| t.name().to_string()).filter(|n| !n.starts_with('_')).collect();
+    listed.sort();
+    let want: Vec<String> = model.keys().cloned().collect();
+    if listed != want {
+        return Err(Fail::new(format!("{P} history table-list when={when}"), format!("tables() lists {listed:?}, created and not dropped: {want:?}; history: {trace}")));
+    }
+    for (name, cols) in model {
+        let got = schema_of(pkg, name).ok_or_else(|| Fail::new(format!("{P} table-missing when={when}"), format!("table {name:?} is not reported; history: {trace}")))?;
+        let want = strip_fk(cols);
+        if got != want {
+            let i = got.iter().zip(want.iter()).position(|(a, b)| a != b).unwrap_or(got.len().min(want.len()));
+            return Err(Fail::new(
+                format!("{P} history schema-differs when={when}"),
+                format!("table {name:?} column #{i} is reported as {:?} but was created as {:?}; history: {trace}", got.get(i), want.get(i)),
+            ));
+        }
+    }
+    Ok(())
+}
+
+pub fn check_hist(case: &HistCase, st: &mut Stats) -> Check {
+    let mut buf = SharedBuf::new(Vec::new());
+    let mut pkg = Package::create(PackageType::Installer, buf.clone()).map_err(|e| Fail::new(format!("{P} unexpected-error op=Create"), e.to_string()))?;
+    let mut model: std::collections::BTreeMap<String, Vec<ColDef>> = std::collections::BTreeMap::new();
+    let mut trace = String::new();
+    let mut dropped = false;
+    let mut created_after_drop = false;
+    for step in &case.steps {
+        match step {
+            HStep::Create { t, cols } => {
+                let name = HT[*t as usize % HT.len()];
+                trace.push_str(&format!("create_table({name}, {}); ", cols.iter().map(|c| format!("{}:{:?}", c.name, c.ty)).collect::<Vec<_>>().join(",")));
+                let built: Vec<msi::Column> = cols.iter().map(|c| c.build()).collect();
+                let res = crate::engine::catch(|| pkg.create_table(name, built)).map_err(|(loc, msg)| Fail::new(format!("{P} panic at={loc}"), format!("create_table panicked: {msg}; history: {trace}")))?;
+                match (res, model.contains_key(name)) {
+                    (Ok(()), true) => return Err(Fail::new(format!("{P} history created-twice"), format!("create_table accepted a table that already exists; history: {trace}"))),
+                    (Err(_), true) => {}
+                    (Ok(()), false) => {
+                        model.insert(name.to_string(), cols.clone());
+                        created_after_drop |= dropped;
+                    }
+                    (Err(e), false) => {
+                        if in_core(name, cols) {
+                            return Err(Fail::new(format!("{P} refused-representable"), format!("create_table refused a definition inside the representable core: {e}; history: {trace}")));
+                        }
+                    }
+                }
+                hist_compare(&pkg, &model, "immediately", &trace)?;
+            }
+            HStep::Drop { t } => {
+                let name = HT[*t as usize % HT.len()];
+                trace.push_str(&format!("drop_table({name}); "));
+                let res = crate::engine::catch(|| pkg.drop_table(name)).map_err(|(loc, msg)| Fail::new(format!("{P} panic at={loc}"), format!("drop_table panicked: {msg}; history: {trace}")))?;
+                match (res, model.contains_key(name)) {
+                    (Ok(()), true) => {
+                        model.remove(name);
+                        dropped = true;
+                    }
+                    (Err(e), true) => return Err(Fail::new(format!("{P} history drop-refused"), format!("drop_table refused an existing table: {e}; history: {trace}"))),
+                    (Ok(()), false) => return Err(Fail::new(format!("{P} history dropped-missing"), format!("drop_table accepted a table that does not exist; history: {trace}"))),
+                    (Err(_), false) => {}
+                }
+                hist_compare(&pkg, &model, "immediately", &trace)?;
+            }
+            HStep::Reopen { close } => {
+                trace.push_str("reopen; ");
+                let bytes = match close % 3 {
+                    0 => {
+                        pkg.flush().map_err(|e| Fail::new(format!("{P} unexpected-error op=Flush"), format!("{e}; history: {trace}")))?;
+                        let b = buf.bytes();
+                        drop(pkg);
+                        b
+                    }
+                    1 => pkg.into_inner().map_err(|e| Fail::new(format!("{P} unexpected-error op=IntoInner"), format!("{e}; history: {trace}")))?.bytes(),
+                    _ => {
+                        drop(pkg);
+                        buf.bytes()
+                    }
+                };
+                buf = SharedBuf::new(bytes);
+                pkg = Package::open(buf.clone()).map_err(|e| Fail::new(format!("{P} reopen-error"), format!("{e}; history: {trace}")))?;
+                hist_compare(&pkg, &model, "after-reopen", &trace)?;
+            }
+        }
+    }
+    // the end of every history: save, reopen, compare, and let the
+    // independent decoder name the live tables
+    trace.push_str("close");
+    let bytes = pkg.into_inner().map_err(|e| Fail::new(format!("{P} unexpected-error op=IntoInner"), format!("{e}; history: {trace}")))?.bytes();
+    let pkg2 = Package::open(SharedBuf::new(bytes.clone())).map_err(|e| Fail::new(format!("{P} reopen-error"), format!("{e}; history: {trace}")))?;
+    hist_compare(&pkg2, &model, "after-reopen", &trace)?;
+    let d = fmt::decode(&bytes).map_err(|e| Fail::new(format!("{P} file-undecodable"), format!("{e}; history: {trace}")))?;
+    for (name, cols) in &model {
+        let dt = d.tables.get(name).ok_or_else(|| Fail::new(format!("{P} catalog-missing"), format!("table {name:?} not in the decoded catalog; history: {trace}")))?;
+        let names: Vec<&String> = dt.cols.iter().map(|c| &c.0).collect();
+        let want: Vec<&String> = cols.iter().map(|c| &c.name).collect();
+        if names != want {
+            return Err(Fail::new(format!("{P} catalog-differs part=column-names"), format!("_Columns names {names:?} for table {name:?}, created {want:?}; history: {trace}")));
+        }
+    }
+    st.class(&format!("history:live-tables={}", model.len()));
+    if created_after_drop {
+        st.class("history:create-after-drop");
+        st.nontrivial(case);
+    }
+    Ok(())
+}
+
+fn hist_strategy() -> impl Strategy<Value = HistCase> {
+    let cols = prop::collection::vec((col_strategy(), any::<u16>()), 1..5).prop_map(|v| {
+        let mut out: Vec<ColDef> = Vec::new();
+        for (i, (mut c, sel)) in v.into_iter().enumerate() {
+            coerce_core(&mut c);
+            // distinct names from the shared pool of names
+            let mut k = crate::seq::pick(sel, HC.len());
+            while out.iter().any(|o| o.name == HC[k]) {
+                k = (k + 1) % HC.len();
+            }
+            c.name = HC[k].to_string();
+            if i == 0 {
+                c.key = true;
+            }
+            out.push(c);
+        }
+        out
+    });
+    let step = prop_oneof![
+        6 => (0u8..4, cols).prop_map(|(t, cols)| HStep::Create { t, cols }),
+        4 => (0u8..4).prop_map(|t| HStep::Drop { t }),
+        2 => (0u8..3).prop_map(|close| HStep::Reopen { close }),
+    ];
+    prop::collection::vec(step, 2..9).prop_map(|steps| HistCase { steps })
+}
+
 fn case_strategy() -> impl Strategy<Value = Case> {
     let ncols = prop_oneof![6 => 1usize..7, 2 => 7usize..31, 1 => Just(31usize), 2 => Just(32usize)];
     let name_len = prop_oneof![8 => 1usize..12, 1 => Just(31usize), 1 => Just(32usize), 1 => Just(33usize), 1 => Just(64usize)];
@@ -255,21 +433,7 @@ fn case_strategy() -> impl Strategy<Value = Case> {
                 let len = if core { len.min(32) } else { len };
                 if core {
                     // 70 % of the cases are coerced into the representable core
-                    if let Ty::Str(w) = c.ty {
-                        c.ty = Ty::Str(w.min(255));
-                    }
-                    c.enums.retain(|e| !e.is_empty() && !e.contains(';'));
-                    while c.enums.join(";").chars().count() > 255 {
-                        c.enums.pop();
-                    }
-                    if let Some((lo, hi)) = c.range {
-                        c.range = Some((lo.max(-i32::MAX), hi.max(-i32::MAX)));
-                    }
-                    if let Some((t, n)) = &c.fk {
-                        if !(1..=32).contains(n) || t != "Other" {
-                            c.fk = Some(("Other".to_string(), 2));
-                        }
-                    }
+                    coerce_core(&mut c);
                 }
                 c.name = ident_of_len(len.max(1), salt % 1000 + i * 31);
                 if i == 0 {
@@ -287,7 +451,7 @@ fn case_strategy() -> impl Strategy<Value = Case> {
 pub fn run(ctx: &Ctx) -> Report {
     let mut rep = Report::new(
         "exploration",
-        "column lists of 1..32 columns over every builder option: integer and string types, string widths over 0..65535 weighted on {0,1,255,256,511,512,0x7ff,0x800,65535}, all 26 categories, enumerations (plain, with ';', with an empty member, joined length around 255), ranges including the extreme integers, foreign-key annotations (valid and not), every flag combination, table names of 1..60 and column names of 1..64 characters. Oracle: if create_table returns Ok, the schema reported immediately and after save + reopen (all three close modes) equals the one created, and the independent decoder finds the same definition in _Columns (type-word bits) and _Validation (nullable, range, foreign key, category, set); definitions inside the representable core must be accepted. Non-trivial = an accepted definition with at least one non-default attribute; distinct by definition.",
+        "column lists of 1..32 columns over every builder option: integer and string types, string widths over 0..65535 weighted on {0,1,255,256,511,512,0x7ff,0x800,65535}, all 26 categories, enumerations (plain, with ';', with an empty member, joined length around 255), ranges including the extreme integers, foreign-key annotations (valid and not), every flag combination, table names of 1..60 and column names of 1..64 characters; plus histories of 2..8 steps (create / drop / reopen over 4 table names and a pool of 10 column names that overlap with each other and with the strings creation writes into _Validation), compared after every step and after a final save + reopen. Oracle: if create_table returns Ok, the schema reported immediately and after save + reopen (all three close modes) equals the one created, and the independent decoder finds the same definition in _Columns (type-word bits) and _Validation (nullable, range, foreign key, category, set); definitions inside the representable core must be accepted. Non-trivial = an accepted definition with at least one non-default attribute; distinct by definition.",
     );
     rep.assumptions.push("refusal is never demanded outside the clearly unrepresentable set: the oracle is 'accepted => exact'".into());
     let mut st = Stats::new();
@@ -299,6 +463,11 @@ pub fn run(ctx: &Ctx) -> Report {
         check_case(c, st)
     }, &mut st);
     rep.push(v);
+    let v = search(ctx, "history", ctx.tier.pick(40_000, 400_000), hist_strategy, |c: &HistCase, st| {
+        st.eval();
+        check_hist(c, st)
+    }, &mut st);
+    rep.push(v);
     rep.stats = st;
     rep
 }
@@ -306,6 +475,7 @@ pub fn run(ctx: &Ctx) -> Report {
 pub fn replay(_ctx: &Ctx, doc: &J) -> Check {
     let mut st = Stats::new();
     match doc["kind"].as_str().unwrap_or("") {
+        "history" => check_hist(&serde_json::from_value::<HistCase>(doc["case"].clone()).map_err(|e| Fail::new(format!("{P} bad-replay"), e.to_string()))?, &mut st),
         "schema" => check_case(&serde_json::from_value::<Case>(doc["case"].clone()).map_err(|e| Fail::new(format!("{P} bad-replay"), e.to_string()))?, &mut st),
         k => Err(Fail::new(format!("{P} bad-replay"), format!("unknown case kind {k:?}"))),
     }
